@@ -47,10 +47,11 @@ case "$PROP" in C10|C19)
   done
   export VERIF_MINPROG="$BUILD/bin/min-$TAG-";;
 esac
-# C17's fresh-process scripts run in a child built WITHOUT the race detector: only there does the Go runtime notice
+# C17's fresh-process scripts (and C16's long-table batches, a second time) run in a child built WITHOUT the race
+# detector: its timing is that of a production binary, and only there does the Go runtime notice
 # that every goroutine is blocked for good ("all goroutines are asleep"), which turns a registry call that never
 # returns into a deterministic, clock-free verdict
-if [ "$PROP" = C17 ]; then
+if [ "$PROP" = C17 ] || [ "$PROP" = C16 ]; then
   ( cd "$HERE/harness" && go build "${MODARGS[@]}" -tags verif -o "$BUILD/bin/vcheck-$TAG" ./cmd/vcheck ) >> "$BUILD/build-$TAG$RACE.log" 2>&1
   if [ $? -ne 0 ]; then
     cat "$BUILD/build-$TAG$RACE.log"
